@@ -1042,10 +1042,44 @@ func up4CallersHandAll(w *World, r *Report, rule string) {
 			}
 			want := []string{x.root + ":PacketForwardingRules.pdrs", x.root + ":PacketForwardingRules.fars", x.root + ":PacketForwardingRules.qers"}
 			r.check(strings.Join(roots, " ") == strings.Join(want, " "), rule, w.FuncName(f), "builder gets "+x.root+".pdrs/fars/qers", w.Pos(c.Pos()), strings.Join(roots, " "), "forwarding configuration built from ["+strings.Join(roots, " ")+"] (entries are rebuilt from partial rules: gates, QFI and TC of rules not in this message are lost)")
-			k, _ := constInt(a[4])
+			// the operation is written at the call, or handed down unchanged from every caller of the
+			// sender (then each of them must name it)
+			k, isK := constInt(a[4])
+			if par, isPar := a[4].(*ssa.Parameter); isPar && !isK {
+				k = w.constParamFromCallers(f, par)
+			}
 			r.check(k == x.typ, rule, w.FuncName(f), fmt.Sprintf("update type %d", x.typ), w.Pos(c.Pos()), fmt.Sprint(k), fmt.Sprintf("update type %d", k))
 		}
 	}
+}
+
+// constParamFromCallers: the constant that every call of f in the repo passes for the parameter par (-1 when
+// there is no call, when f is also used as a function value or started as a goroutine / deferred, when some call
+// passes a non-constant, or when two calls disagree).
+func (w *World) constParamFromCallers(f *ssa.Function, par *ssa.Parameter) int64 {
+	pi := -1
+	for i, p := range f.Params {
+		if p == par {
+			pi = i
+		}
+	}
+	k, n := int64(-1), 0
+	for _, edge := range w.CG().callersOf(f) {
+		call, ok := edge.Site.(ssa.CallInstruction)
+		if !ok || edge.Kind != "call" || call.Common().IsInvoke() || pi < 0 || pi >= len(call.Common().Args) {
+			return -1
+		}
+		c, isK := constInt(call.Common().Args[pi])
+		if !isK || (n > 0 && c != k) {
+			return -1
+		}
+		k = c
+		n++
+	}
+	if n == 0 {
+		return -1
+	}
+	return k
 }
 
 // sliceElems: the element values of a slice built from a composite literal, make + appends, or
